@@ -8,7 +8,11 @@ Models, in the coded order of their tests,
   *before* the hook is asked, hook protocol (string context / bool / raising / IOError / junk, the
   DLMESO fallback when no hook module can be imported), context -> code decision, `run()`, and the
   `_resubmissionAttempts` increment on an initiated `SubmissionFailed` restart;
-* `Engine._setExitReason` (engine.py 1092-1113): `Success` resets `_resubmissionAttempts`;
+* `Engine.run` as far as the counters are concerned (engine.py 426-806): `LaunchTask` either creates a Task
+  object (`taskCreated`: `SetLaunchTime` records the launch time and touches no counter) or the task generator
+  raises (no task: `SubmissionFailed` for OSError/JobLaunchError, `UnknownIssue` otherwise); `HandleTaskExit`
+  hands the task's own exit reason to `_setExitReason`;
+* `Engine._setExitReason` (engine.py 1092-1113): `Success` — and nothing else — resets `_resubmissionAttempts`;
 * `RepeatingEngine.restart` (engine.py 2074-2156): at most one restart, only for `ResourceExhausted`
   (*repaired*: honours an explicit `maxRestarts` and `restartHookOn`; `repeatingRestartOld` is the code before the repair);
 * `ComponentState.restart` (workflow.py 624-639): raises after the engine was shut down;
@@ -90,8 +94,22 @@ structure Cfg where
   hookModule : HookModule
   deriving Repr
 
+/-- How the launch that precedes a task exit went (`Engine.run`: `LaunchTask`, `SetLaunchTime`). -/
+inductive Launch where
+  /-- the task generator returned a Task object (the `taskCreated` event); the task later exits and reports its
+  own exit reason — which may be `SubmissionFailed` (kubernetes image pull, LSF TERM_* codes) -/
+  | task
+  /-- the generator raised OSError / JobLaunchError: no task, `HandleTaskExit` reports `SubmissionFailed` -/
+  | submitError
+  /-- the generator raised anything else: no task, `UnknownIssue` -/
+  | otherError
+  /-- no launch precedes the exit (an exit reported on an engine that was not launched again; RepeatingEngine) -/
+  | none
+  deriving DecidableEq, Repr
+
 /-- One task exit and everything the environment decides around the restart attempt that follows. -/
 structure Inp where
+  /-- the exit reason the engine reports (`Engine.exitReason()`) -/
   reason : Reason
   /-- answer of the hook, if it is asked -/
   hook : HookAns
@@ -101,7 +119,16 @@ structure Inp where
   runFails : Bool
   /-- `MonitorExceptionTracker.isSystemStable` -/
   stable : Bool
+  /-- how the launch before this exit went -/
+  launch : Launch
   deriving Repr
+
+/-- consistency of `launch` and `reason` as `HandleTaskExit` produces them (the theorems do not need it) -/
+def Inp.wf (i : Inp) : Bool :=
+  match i.launch with
+  | .submitError => decide (i.reason = .submissionFailed)
+  | .otherError => decide (i.reason = .unknownIssue)
+  | _ => true
 
 structure St where
   /-- `Engine.restarts` -/
@@ -231,13 +258,25 @@ def ctrlRestartOld (c : Cfg) (s : St) (i : Inp) : St × Code :=
 def exit (c : Cfg) (s : St) (r : Reason) : St :=
   if !c.repeating && decide (r = .success) then { s with resub := 0 } else s
 
-/-- One step: the task exits, the controller handles the post-mortem notification.
+/-- the `taskCreated` event (`SetLaunchTime` with a Task object): the launch time is recorded; neither
+`Engine.restarts` nor `Engine._resubmissionAttempts` is touched — a streak of failed submissions is NOT ended by
+the backend accepting a task, only by a task that succeeds -/
+def taskCreated (_c : Cfg) (s : St) : St := s
+
+/-- from the launch to the exit: the `taskCreated` event if a Task object was created, then `_setExitReason` -/
+def arrive (c : Cfg) (s : St) (i : Inp) : St :=
+  exit c (match i.launch with | .task => taskCreated c s | _ => s) i.reason
+
+/-- One step: the launch, the task exits, the controller handles the post-mortem notification.
 `fin = true`: `Controller.postMortemCheck` (a refused restart gives the final state, the engine is shut down);
 `fin = false`: only `Controller._restartComponent` (lets histories continue after a refusal, which the real
 controller never does: used to explore the counters). -/
-def stepWith (ctrl : Cfg → St → Inp → St × Code) (fin : Bool) (c : Cfg) (s : St) (i : Inp) : St × Code :=
-  let r := ctrl c (exit c s i.reason) i
+def stepGen (arr : Cfg → St → Inp → St) (ctrl : Cfg → St → Inp → St × Code) (fin : Bool) (c : Cfg) (s : St)
+    (i : Inp) : St × Code :=
+  let r := ctrl c (arr c s i) i
   if fin && decide (r.2 ≠ .initiated) then ({ r.1 with shutdown := true }, r.2) else r
+
+def stepWith (ctrl : Cfg → St → Inp → St × Code) := stepGen arrive ctrl
 
 def step := stepWith ctrlRestart
 def stepOld := stepWith ctrlRestartOld
@@ -250,16 +289,26 @@ structure Ev where
   deriving DecidableEq, Repr
 
 /-- chronological list of events of a history of task exits -/
-def execWith (ctrl : Cfg → St → Inp → St × Code) (fin : Bool) (c : Cfg) : St → List Inp → List Ev
+def execGen (arr : Cfg → St → Inp → St) (ctrl : Cfg → St → Inp → St × Code) (fin : Bool) (c : Cfg) :
+    St → List Inp → List Ev
   | _, [] => []
   | s, i :: is =>
-    let r := stepWith ctrl fin c s i
-    ⟨i.reason, r.2, r.1⟩ :: execWith ctrl fin c r.1 is
+    let r := stepGen arr ctrl fin c s i
+    ⟨i.reason, r.2, r.1⟩ :: execGen arr ctrl fin c r.1 is
 
 /-- state after a history -/
-def finalWith (ctrl : Cfg → St → Inp → St × Code) (fin : Bool) (c : Cfg) : St → List Inp → St
+def finalGen (arr : Cfg → St → Inp → St) (ctrl : Cfg → St → Inp → St × Code) (fin : Bool) (c : Cfg) :
+    St → List Inp → St
   | s, [] => s
-  | s, i :: is => finalWith ctrl fin c (stepWith ctrl fin c s i).1 is
+  | s, i :: is => finalGen arr ctrl fin c (stepGen arr ctrl fin c s i).1 is
+
+def execWith (ctrl : Cfg → St → Inp → St × Code) := execGen arrive ctrl
+def finalWith (ctrl : Cfg → St → Inp → St × Code) := finalGen arrive ctrl
+
+/-- the variant in which the streak of failed submissions is ended by the creation of a Task object instead of
+by a successful task (kept only for `St4sd.Witness.C12`) -/
+def arriveResetAtCreation (_c : Cfg) (s : St) (i : Inp) : St :=
+  match i.launch with | .task => { s with resub := 0 } | _ => s
 
 def exec := execWith ctrlRestart
 def final := finalWith ctrlRestart
